@@ -200,6 +200,13 @@ def run_case(case):
                 k = type(r).__name__
                 if routines.setdefault(name, k) != k:
                     return f"{name}({t!r}) is a {k} on the {phase} build but was a {routines[name]}"
+            if case[0] == "leaf" and case[1] in ("T", "TB", "TC"):
+                # a type variable used as an annotation in its own right (not as a generic argument) cannot be resolved: pass-through
+                try:
+                    if with_timeout(lambda: typelib.unmarshal(t, _OBJ)) is not _OBJ or with_timeout(lambda: typelib.marshal(_OBJ, t=t)) is not _OBJ:
+                        return f"{t!r} at the root does not pass an arbitrary object through ({phase})"
+                except BaseException as e:
+                    return f"{t!r} at the root: pass-through raised {type(e).__name__}: {e} ({phase})"[:300]
             if wire is None:
                 continue
             try:
